@@ -917,10 +917,21 @@ rc::Gen<Case> genUsage() {
       a.desc.clear();
       for (int w = 0; w < nw; ++w) { if (w) a.desc += ' '; a.desc += (w == markerAt) ? markerOf(i) : oneOf(vocab); }
     }
+    // sub-group: some arguments live in a sub-group handler with its own -h; its usage shares the display settings
+    bool subUsage = false;
+    if (cfg.args.size() >= 2 && pick(35)) {
+      size_t ns = *range<size_t>(1, std::min<size_t>(3, cfg.args.size() - 1));
+      for (size_t i = 0; i < cfg.args.size() && ns > 0; ++i)
+        if (cfg.args[i].constraints.empty() && cfg.args[i].spec != "-" && pick(50)) { bool target = false; for (auto &o : cfg.args) for (auto &ct : o.constraints) if (ct.second == static_cast<int>(i)) target = true; bool inHc = false; for (auto &hc : cfg.hcs) for (int x : hc.args) if (x == static_cast<int>(i)) inHc = true; if (!target && !inHc) { cfg.args[i].inSubGroup = true; --ns; } }
+      for (auto &a : cfg.args) if (a.inSubGroup) subUsage = pick(60);
+      // the main handler does its final checks after the sub-group printed its usage: no mandatory arguments then
+      if (subUsage) { for (auto &a : cfg.args) a.mandatory = a.inSubGroup ? a.mandatory : false; cfg.hcs.clear(); }   // (nor end conditions of handler constraints)
+    }
     // the line
     Variant v;
     v.in.argv = {"prog"};
     int kind = *range<int>(0, 9);
+    if (subUsage) kind = 0;
     if (kind <= 6) {
       // full usage with settings given before the help argument
       if ((cfg.flags & F_ARG_HIDDEN) && !(cfg.flags & F_USAGE_HIDDEN) && pick(60)) v.in.argv.push_back("--print-hidden");
@@ -929,13 +940,13 @@ rc::Gen<Case> genUsage() {
       if (s) v.in.argv.push_back("--help-short");
       else if ((cfg.flags & F_USAGE_LONG) && pick(50)) v.in.argv.push_back("--help-long");
       bool haveShort = cfg.flags & F_HELP_SHORT, haveLong = cfg.flags & F_HELP_LONG;
-      v.in.argv.push_back(haveShort && (!haveLong || pick(50)) ? "-h" : "--help");
-      v.note = "usage";
+      if (subUsage) { v.in.argv.push_back(pick(50) ? "-G" : "--sub-group"); v.in.argv.push_back(pick(50) ? "-h" : "--help"); v.note = "usage-sub"; }
+      else { v.in.argv.push_back(haveShort && (!haveLong || pick(50)) ? "-h" : "--help"); v.note = "usage"; }
     } else if (cfg.flags & (F_HELP_ARG | F_HELP_ARG_FULL)) {
       std::string helpKey = (cfg.flags & F_HELP_ARG) && (!(cfg.flags & F_HELP_ARG_FULL) || pick(50)) ? "--help-arg" : "--help-arg-full";
       std::string key;
       std::vector<const ArgDef *> keyed;
-      for (auto &a : cfg.args) if (a.shortKey || !a.longKey.empty()) keyed.push_back(&a);
+      for (auto &a : cfg.args) if ((a.shortKey || !a.longKey.empty()) && !a.inSubGroup) keyed.push_back(&a);
       if (!keyed.empty() && pick(80)) { const ArgDef &a = *oneOf(keyed); key = (a.shortKey && (a.longKey.empty() || pick(50))) ? std::string(1, a.shortKey) : a.longKey; }
       else key = pick(50) ? "Q" : "no-such-argument";
       v.in.argv.push_back(helpKey + "=" + key);
@@ -983,6 +994,7 @@ std::string runUsage(const Case &c) {
   const bool printHidden = (cfg.flags & F_USAGE_HIDDEN) || has("--print-hidden");
   const bool printDeprecated = (cfg.flags & F_USAGE_DEPRECATED) || has("--print-deprecated");
   const bool shortOnly = has("--help-short"), longOnly = has("--help-long");
+  const bool subUsage = v.note == "usage-sub";
   const size_t posMand = out.find("Mandatory arguments:"), posOpt = out.find("Optional arguments:");
   // entries: lines indented by exactly 3 blanks that start with '-'
   std::vector<std::pair<size_t, std::string>> entryStarts;   // offset, key text
@@ -1003,6 +1015,7 @@ std::string runUsage(const Case &c) {
   for (size_t i = 0; i < cfg.args.size(); ++i) {
     const ArgDef &a = cfg.args[i];
     bool vis = (printHidden || !a.hidden) && (printDeprecated || !a.deprecated) && (!shortOnly || a.shortKey) && (!longOnly || !a.longKey.empty());
+    if (a.inSubGroup != subUsage) vis = false;   // the usage of a handler lists its own arguments only
     size_t n = countOccurrences(out, markerOf(i));
     std::string who = "argument '" + a.spec + "'" + (a.hidden ? " [hidden]" : "") + (a.deprecated ? " [deprecated]" : "") + (a.mandatory ? " [mandatory]" : "");
     if (!vis) { ++invisible; if (n != 0) return where + who + " must not be listed but appears " + std::to_string(n) + " times"; continue; }
@@ -1036,7 +1049,7 @@ std::string runUsage(const Case &c) {
     e = expectNote("[replaced by", a.deprecated && !a.replacedBy.empty()); if (!e.empty()) return e;
     if (a.longKey.size() >= 36) st.cls("usage.long_key_own_line");
   }
-  st.cls("usage.full");
+  st.cls(subUsage ? "usage.sub_group" : "usage.full");
   if (printHidden) st.cls("usage.print_hidden");
   if (printDeprecated) st.cls("usage.print_deprecated");
   if (shortOnly) st.cls("usage.short_only");
